@@ -35,8 +35,10 @@ def run_case(ctx, rng, ci):
     import numpy as np
     import verif.field
     pit = rng.random() < 0.4
+    with_raw = rng.random() < 0.3
     ds = gen.make_dataset(rng, n_inputs=rng.choice([1, 2, 2, 3]), clim=True, pit=pit, miss=rng.choice([0.0, 0.1, 0.25]),
-                          max_t=5, max_l=4, max_s=4, vrange=rng.choice([(-10, 30), (1, 20)]), some_without_obs=rng.random() < 0.2)
+                          max_t=5, max_l=4, max_s=4, vrange=rng.choice([(-10, 30), (1, 20)]), some_without_obs=rng.random() < 0.2,
+                          others=(["raw"] if with_raw else ()))
     if len(ds["inputs"]) >= 2 and all("obs" in i["has"] for i in ds["inputs"]) and rng.random() < 0.4:
         # files may carry different observations (another sensor, another quality control): each input's anomaly is its own
         for j, inp in enumerate(ds["inputs"][1:]):
@@ -203,6 +205,11 @@ def run_case(ctx, rng, ci):
             axis = rng.choice(refmodel.ALL_AXES)
             extra = ["-r", "2"] if metric == "within" else []
             cmd = sargv + ["-m", metric] + extra + ["-x", axis, "-type", "csv"]
+            if with_raw and all("obs" in i["has"] for i in ds["inputs"]):
+                # another column plays the forecast (-fcst raw): the anomaly is still taken of both sides, so the scores still
+                # equal those with the climatology file as an additional input
+                cmd = ["-fcst", "raw"] + cmd
+                ctx.count("metamorphic_pairs_with_field_override")
             o1 = runner.run_cli(paths + ["-c", cpath] + cmd)
             o2 = runner.run_cli(paths + [cpath] + cmd)
             ctx.count("metamorphic_pairs")
